@@ -721,9 +721,13 @@ impl Property for C03 {
     fn id(&self) -> &'static str {
         "C03"
     }
-    fn generate(&self, rng: &mut Rng, _tier: Tier) -> Box<dyn Case> {
+    fn generate(&self, rng: &mut Rng, tier: Tier) -> Box<dyn Case> {
         let mut cfg = GenCfg::swarm(rng);
         cfg.size = *rng.pick(&[2usize, 4, 6]);
+        if tier == Tier::Thorough && rng.pct(35) {
+            // the thorough tier also explores larger programs
+            cfg.size *= 2;
+        }
         cfg.inkey = rng.pct(20);
         let prog = gen_program(rng, cfg);
         let valid = render_program(&prog);
